@@ -1,0 +1,35 @@
+// Package fsutil holds small file-system helpers shared by the other packages.
+package fsutil
+
+import (
+	"fmt"
+	"os"
+	"path/filepath"
+)
+
+// WriteFileAtomic replaces the content of the file at path with data.
+// The data is first written to a temporary file in tmpDir, which must be on the same
+// file system, and then renamed over path. A process that is interrupted at any point
+// therefore leaves either the old content or the new content at path, never a
+// truncated or half-written file, and a failed write leaves path untouched.
+func WriteFileAtomic(tmpDir, path string, data []byte) error {
+	tmpPath := filepath.Join(tmpDir, fmt.Sprintf("tmp-%d-%s", os.Getpid(), filepath.Base(path)))
+	f, err := os.OpenFile(tmpPath, os.O_WRONLY|os.O_CREATE|os.O_TRUNC, 0666)
+	if err != nil {
+		return err
+	}
+	if _, err := f.Write(data); err != nil {
+		f.Close()
+		os.Remove(tmpPath)
+		return err
+	}
+	if err := f.Close(); err != nil {
+		os.Remove(tmpPath)
+		return err
+	}
+	if err := os.Rename(tmpPath, path); err != nil {
+		os.Remove(tmpPath)
+		return err
+	}
+	return nil
+}
